@@ -506,6 +506,9 @@ class C05(Check):
         specs.append(("designed/priority-conflict-high-last", K.priority_conflict_spec(False), None))
         specs.append(("designed/priority-conflict-equal", K.priority_conflict_spec(True, True), None))
         # a RULE with a tank-level premise, rule step < hydraulic step, alone and next to a simple level control
+        specs.append(("designed/prv-commanded-open-reverse-flow", K.prv_open_spec("PRV"), None))
+        specs.append(("designed/psv-commanded-open-reverse-flow", K.prv_open_spec("PSV"), None))
+        specs.append(("designed/valve-user-open-at-tank", K.valve_user_open_spec(), None))
         specs.append(("designed/specific-gravity-0.8", K.specific_gravity_spec(0.8), None))
         specs.append(("designed/specific-gravity-1.2", K.specific_gravity_spec(1.2), None))
         specs.append(("designed/rule-level-premise", K.rule_level_spec(False), None))
